@@ -40,6 +40,15 @@ Proof. exact l010_fix_idempotent. Qed.
 Theorem C17_l007_fix_idempotent : forall t, i_l007_fix (i_l007_fix t) = i_l007_fix t.
 Proof. exact (l007_fix_idempotent letter digit upper keywords_tab up_plain up_letter up_idem). Qed.
 
+(* the output of the CLI loop (L001; L002; L003; L010; L007) is a fixed point of every one of the five fixers, so a second
+   run of  lint --auto-fix  changes nothing *)
+Theorem C17_cli_fixed_points : forall t,
+  l001_fix (i_cli_fix t) = i_cli_fix t /\ l002_fix (i_cli_fix t) = i_cli_fix t /\ i_l003_fix (i_cli_fix t) = i_cli_fix t /\
+  l010_fix (i_cli_fix t) = i_cli_fix t /\ i_l007_fix (i_cli_fix t) = i_cli_fix t.
+Proof. exact (cli_fixed_points letter digit space upper keywords_tab up_plain up_letter up_idem up_nows sp_nodelim (proj1 space_32_9)). Qed.
+Theorem C17_cli_fix_idempotent : forall t, i_cli_fix (i_cli_fix t) = i_cli_fix t.
+Proof. exact (cli_fix_idempotent letter digit space upper keywords_tab up_plain up_letter up_idem up_nows sp_nodelim (proj1 space_32_9)). Qed.
+
 (* ---- re-lint: no violation of the rule remains after its fix ---- *)
 Theorem C17_l001_fix_clears : forall t, l001_check (l001_fix t) = [].
 Proof. exact l001_fix_clears. Qed.
@@ -94,6 +103,8 @@ Print Assumptions C17_l002_fix_idempotent.
 Print Assumptions C17_l003_fix_idempotent.
 Print Assumptions C17_l010_fix_idempotent.
 Print Assumptions C17_l007_fix_idempotent.
+Print Assumptions C17_cli_fixed_points.
+Print Assumptions C17_cli_fix_idempotent.
 Print Assumptions C17_l001_fix_clears.
 Print Assumptions C17_l002_fix_clears.
 Print Assumptions C17_l003_fix_clears.
